@@ -146,8 +146,7 @@ pub fn c03(a: &Analysis<'_>, out: &mut Vec<Violation>) {
             if *is_err {
                 e += 1;
             } else if let ParserItemKind::Feature(fi) = &a.plan.items[*i].kind {
-                let name = &a.plan.features[*fi].name;
-                let (nr, ns, nt) = a.st.feature_counts[name];
+                let (nr, ns, nt) = a.st.feature_counts[fi];
                 f += 1;
                 r += nr;
                 s += ns;
@@ -311,8 +310,7 @@ pub fn c04(a: &Analysis<'_>, out: &mut Vec<Violation>) {
             continue;
         }
         if let ParserItemKind::Feature(fi) = &a.plan.items[*i].kind {
-            let fname = &a.plan.features[*fi].name;
-            for sc in a.st.scenarios.values().filter(|s| &s.feature == fname) {
+            for sc in a.st.scenarios.values().filter(|s| s.feature_idx == *fi) {
                 supplied.insert(sc.name.clone());
             }
         }
@@ -499,13 +497,13 @@ fn first_unfilled(a: &Analysis<'_>, only_while_retry_waits: bool) -> Option<Unfi
         None
     };
     // delivery time of each scenario (first attempt) by feature
-    let mut delivered_at: BTreeMap<&str, u64> = BTreeMap::new();
+    let mut delivered_at: BTreeMap<usize, u64> = BTreeMap::new();
     for (i, t, is_err) in &a.h.parser.delivered {
         if *is_err {
             continue;
         }
         if let ParserItemKind::Feature(fi) = &a.plan.items[*i].kind {
-            delivered_at.insert(a.plan.features[*fi].name.as_str(), *t);
+            delivered_at.insert(*fi, *t);
         }
     }
     let mut checked_after: BTreeSet<usize> = BTreeSet::new();
@@ -542,7 +540,7 @@ fn first_unfilled(a: &Analysis<'_>, only_while_retry_waits: bool) -> Option<Unfi
         let mut ready = 0usize;
         let mut serial_ready = false;
         for sc in a.st.scenarios.values() {
-            let Some(d) = delivered_at.get(sc.feature.as_str()) else { continue };
+            let Some(d) = delivered_at.get(&sc.feature_idx) else { continue };
             if started_names.contains(sc.name.as_str()) {
                 continue;
             }
@@ -777,7 +775,7 @@ pub fn c08(a: &Analysis<'_>, out: &mut Vec<Violation>) {
         for (i, _, is_err) in &a.h.parser.delivered {
             if !*is_err {
                 if let ParserItemKind::Feature(fi) = &a.plan.items[*i].kind {
-                    supplied += a.st.feature_counts[&a.plan.features[*fi].name].1;
+                    supplied += a.st.feature_counts[fi].1;
                 }
             }
         }
